@@ -378,7 +378,9 @@ class CallGraphQuery:
         if status == "RUNNING":
             return Job.end_time.is_(None) & Job.call_hash.is_(None)
         elif status == "CACHED":
-            return Job.cached.is_(True)
+            # A cached Job whose result is an error (e.g. a duplicate of a failed Job, or a cached
+            # Job whose child failed) is displayed as FAILED.
+            return Job.cached.is_(True) & (Value.type != REDUN_ERROR_TYPE_NAME)
         elif status == "FAILED":
             return Value.type == REDUN_ERROR_TYPE_NAME
         elif status == "DONE":
